@@ -331,6 +331,9 @@ def seed_acl(rng, plat, n=None, numbered=None, groups=True, headings=True, multi
                 w2 = rand_w(rng)
                 gdict.setdefault(name2, [rng.choice(spellings_ace(m, plat)) for m in [w2, narrow_w(rng, w2), rand_w(rng)][: rng.randint(0, 3)]])
                 ln = f"{parts[0]} ip {kwd} {name} {kwd} {name2}"
+                if rng.random() < 0.5:     # groups on both sides of an entry with port expressions (several ports on IOS)
+                    pp = (lambda: "eq " + " ".join(str(x) for x in sorted(rng.sample([22, 80, 443, 8080, 135, 514], rng.randint(1, 3 if plat == "ios" and multi else 1)))))
+                    ln = f"{parts[0]} {rng.choice(['tcp', 'udp'])} {kwd} {name} {pp() if rng.random() < 0.6 else ''} {kwd} {name2} {pp()}".replace("  ", " ")
         lines.append(ln)
     if not multi or plat == "nxos":
         pass
